@@ -149,7 +149,12 @@ func (f *Frame) load(st *State, l Loc) *Term {
 		s := c.sortOf(l.typ)
 		name := "G!" + l.name
 		h := c.heapGet(st, name, ArrSort(SInt, s))
-		return Select(h, IntLit(0))
+		v := Select(h, IntLit(0))
+		if s == SIfc && f.eng.sentinelError(l.name) && c.inQuant == 0 {
+			// package-level `var ErrX = errors.New(..)`: a non-nil sentinel (assumed never reassigned)
+			c.assume(st, Ne(v, IfaceNil))
+		}
+		return v
 	case LHeapField:
 		si := c.structInfo(l.st)
 		fi := si.Fields[l.idx]
